@@ -17,6 +17,7 @@ THEOREMS = [
     "C14_constants_in_range", "C14_grace_is_a_few_seconds", "C14_latest_wins", "C14_not_before_lifespan", "C14_after_twice",
     "C14_span_never_cant", "C14_expiry_monotone", "C14_expired_total", "C14_zero_span_old_refuted",
     "C14_expired_reads_unknown_partial", "C14_first_read_stale_refuted", "C14_store_keys_nodup", "C14_nonvacuous",
+    "C14_delete_only_that_message", "C14_delete_invents_nothing",
 ]
 
 PRELUDE = ("From Coq Require Import ZArith List Bool.\nFrom RV Require Import GenConsts M_Store.\n"
@@ -219,7 +220,9 @@ def run(ctx: Ctx) -> None:
         ctx.obligation("correspondence:expired", False, "correspondence", "model not built")
         ctx.obligation("correspondence:handle_msg-store", False, "correspondence", "model not built")
 
+    DELETE_CASES.clear()
     asyncio.run(end_to_end(ctx, 150 if thorough else 40))
+    delete_correspondence(ctx, built)
 
 
 async def end_to_end(ctx: Ctx, trials: int) -> None:
@@ -336,7 +339,52 @@ async def end_to_end(ctx: Ctx, trials: int) -> None:
                 if zones[z].setpoint != exp_sp[z]:
                     ctx.violation("latest-not-reported", "zone.setpoint is not the most recent 2309/2349 value",
                                   {"log_tail": [x[27:] for x in lines[-6:]], "zone": z, "got": zones[z].setpoint, "expected": exp_sp[z]}, "history")
+        # the deferred deletion itself: _delete_msg(m) on the real entities removes m wherever it is held, and nothing else
+        ents = ([g.tcs.ctl, g.tcs] + list(g.tcs.zones) + ([g.tcs.dhw] if g.tcs.dhw else [])) if g.tcs else []
+        held = [m for e in ents for m in e._msgs_.values()]
+        for m in rng.sample(held, min(2, len(held))):
+            before = [dict(e._msgs_) for e in ents]
+            try:
+                ents[-1]._delete_msg(m)
+            except Exception as err:  # noqa: BLE001
+                ctx.violation("delete-raises:" + type(err).__name__, "deleting a stored message raised", {"log_tail": [x[27:] for x in lines[-6:]], "message": str(m._pkt)}, "history")
+                continue
+            ctx.case(("delete", trial, str(m._pkt)), True, "delete-stored-message")
+            for e, b in zip(ents, before):
+                want = {c: x for c, x in b.items() if x is not m}
+                if dict(e._msgs_) != want:
+                    lost = sorted(c for c in want if c not in e._msgs_)
+                    ctx.violation("delete-removes-another-message", "deleting one (expired) message removed another message held by an entity",
+                                  {"log_tail": [x[27:] for x in lines[-8:]], "deleted": str(m._pkt), "entity": str(e), "codes_lost": lost}, "history")
+                DELETE_CASES.append(([(int(c, 16), id(x) % 10**9) for c, x in b.items()], (int(m.code, 16), id(m) % 10**9),
+                                     sorted((int(c, 16), id(x) % 10**9) for c, x in e._msgs_.items())))
         await g.stop()
+
+
+DELETE_CASES: list = []     # (store before as (code, message id), the deleted (code, id), store after): compared with the model's sdel
+
+
+def delete_correspondence(ctx: Ctx, built: bool) -> None:
+    cases = DELETE_CASES[:600]
+    if not built or not cases:
+        ctx.obligation("correspondence:delete", False, "correspondence", "model not built" if not built else "no stored message was deleted")
+        return
+
+    def sm(c, v):
+        return f"{{| s_code := {c}; s_verb := 0; s_src := 1; s_dst := 1; s_ctx := 0; s_val := {v} |}}"
+
+    txt = PRELUDE + "Eval vm_compute in (map (fun x : list (Z * smsg) * smsg => map (fun e => [fst e; s_val (snd e)]) (sdel (fst x) (snd x))) " + common.coq_list(
+        ["([" + "; ".join(f"({c}, {sm(c, v)})" for c, v in b) + f"], {sm(*d)})" for b, d, _ in cases], ";\n ") + ")."
+    rc, out = common.coq_eval("C14del", {"x": txt}, timeout=300)["x"]
+    m = re.search(r"=\s*(\[.*\])\s*:\s*list", out, flags=re.S)
+    if rc or not m:
+        ctx.obligation("correspondence:delete", False, "correspondence", out[-400:])
+        return
+    rows = eval(m.group(1).replace(";", ","), {"__builtins__": {}})  # noqa: S307
+    bad = [i for i, (r, (_, _, a)) in enumerate(zip(rows, cases)) if sorted(tuple(x) for x in r) != [tuple(x) for x in a]]
+    ctx.obligation("correspondence:delete", not bad and len(rows) == len(cases), "correspondence",
+                   f"{len(bad)} of {len(cases)} differ; first: store {cases[bad[0]][0]} delete {cases[bad[0]][1]}: model {rows[bad[0]]} implementation {cases[bad[0]][2]}" if bad or len(rows) != len(cases)
+                   else f"{len(cases)} deletions on real controller / system / zone stores agree with sdel")
 
 
 def replay(case: dict) -> int:
